@@ -427,7 +427,7 @@ def _shift(resp, d):
 def pre_pats(g):
     """pattern lists that activate each prefilter variant (DESIGN 4.3)"""
     k = g.rng.choice(["memmem", "start1", "start2", "start3", "rare", "rare", "rare3", "rare2ci", "packed", "packed",
-                      "none_many", "hi_start"])
+                      "none_many", "hi_start", "mixed_hi", "mixed_hi"])
     g.note("pre:" + k)
     alpha = b"abcdefgh"
     if k == "memmem":
@@ -464,6 +464,16 @@ def pre_pats(g):
         return out
     if k == "packed":
         return [g.word(alpha, 2, 6) for _ in range(g.rng.randint(3, 16))]
+    if k == "mixed_hi":
+        # at most three distinct first bytes, one of them non-ASCII, and more than three rare bytes (or a 1-byte-spread of
+        # rare letters) so that the start-byte prefilter would be the natural choice if the non-ASCII byte were ignored
+        hi = g.rng.choice([0x80, 0xC3, 0xCE, 0xE2, 0xFF])
+        firsts = g.rng.sample(list(b"abfx"), g.rng.randint(1, 2))
+        out = []
+        for i, r in enumerate(g.rng.sample(list(b"qzjxkvw"), g.rng.randint(4, 6))):
+            out.append(bytes([firsts[i % len(firsts)], r]) + g.word(b"etao", 0, 2))
+        out.insert(g.rng.randint(0, len(out)), bytes([hi]) + g.word(b"etaoqz", 1, 3))
+        return out
     if k == "hi_start":
         return [bytes([g.rng.choice([0x80, 0xC3, 0xFF])]) + g.word(alpha, 1, 3) for _ in range(g.rng.randint(1, 3))]
     return [g.word(alpha, 1, 5) for _ in range(g.rng.randint(17, 40))]
@@ -589,6 +599,28 @@ def gen_C10(tier, seed):
         i0 = len(reqs)
         reqs += [mkreq(hay, s, e), mkreq(hay[s:e], 0, e - s), mkreq(hay3, s, e)]
         triples.append((i0, s))
+    # the END of the span with vector-code prefilters: an occurrence that crosses (or follows) span.end, with a span
+    # long enough for Teddy (>= 16 + fingerprint bytes) and nothing matching before it
+    for _ in range(qn(q, 60, 600)):
+        pats = [g.word(b"abcdefgh", 2, 7) for _ in range(g.rng.randint(3, 12))] if g.rng.random() < 0.7 else pre_pats(g)
+        pats = [p for p in pats if p] or [b"ab"]
+        alpha, foreign = g.alphabet(pats)
+        p0 = g.rng.choice(pats)
+        lead = g.rng.randint(18, 70)
+        hay = bytes([foreign]) * lead + p0 + bytes([foreign]) * g.rng.randint(0, 6) + g.rng.choice(pats)
+        s = g.rng.randint(0, 3)
+        e = lead + g.rng.randint(0, len(p0))           # inside or just before/after the occurrence
+        e = min(e, len(hay))
+        mk = g.rng.choice(["lf", "ll", "std"])
+        op = g.rng.choice(["find", "iter"])
+        hay3 = hay[:e] + bytes(g.rng.choice(alpha or b"x") for _ in range(g.rng.randint(0, 9)))
+        base = {"mk": mk, "pats": hxlist(pats)}
+        def mkreq2(h, a, b):
+            kv = dict(base); kv.update({"hay": hx(h), "s": a, "e": b, "cfgs": cfgs(cf)})
+            return fmt_req(op, kv)
+        i0 = len(reqs)
+        reqs += [mkreq2(hay, s, e), mkreq2(hay[s:e], 0, e - s), mkreq2(hay3, s, e)]
+        triples.append((i0, s))
     # start = end + 1
     for _ in range(20):
         pats = g.pats(); hay = g.hay(pats, 6)
@@ -626,7 +658,7 @@ PACKED_VARIANTS = ["rk", "teddy", "slim128", "slim256", "fat", "default"]
 
 def packed_pats(g):
     """packed stressors (DESIGN 4.3): shared fingerprints, many fingerprints, 1..128 patterns, minimum length 1..5"""
-    k = g.rng.choice(["few", "few", "samefp", "manyfp", "many33", "many65", "min1", "nested", "dups", "long"])
+    k = g.rng.choice(["few", "few", "samefp", "manyfp", "many33", "many65", "min1", "nested", "dups", "long", "verylong"])
     g.note("packed:" + k)
     a = b"abcdefghijklmnop"
     if k == "few":
@@ -655,6 +687,9 @@ def packed_pats(g):
     if k == "dups":
         w = [g.word(a[:3], 1, 4) for _ in range(3)]
         return [g.rng.choice(w) for _ in range(g.rng.randint(2, 7))]
+    if k == "verylong":
+        # shortest pattern longer than a machine word has bits (the rolling hash drops its oldest byte entirely)
+        return [g.word(a[:4], 65, 100) for _ in range(g.rng.randint(1, 3))]
     return [g.word(a[:4], 5, 40) for _ in range(g.rng.randint(1, 5))]
 
 
@@ -662,6 +697,8 @@ def packed_hay(g, pats):
     """every match offset modulo the vector width, lengths around 16/32/48(+N-1), matches straddling windows
     and in the final partial window, decoy prefixes"""
     n = g.rng.choice([0, 1, 5, 14, 15, 16, 17, 18, 19, 20, 30, 31, 32, 33, 34, 35, 36, 47, 48, 49, 50, 64, 67, 70, 100])
+    if min(len(p) for p in pats) > 60:
+        n = g.rng.choice([70, 100, 130, 200, 260])
     alpha, foreign = g.alphabet(pats)
     fill = bytes([foreign]) if g.rng.random() < 0.5 else bytes([g.rng.choice(alpha)])
     out = bytearray(fill * n)
